@@ -89,7 +89,8 @@ Full statement (DESIGN §7): for every query tree and segment,
 It is false as stated (see `C03_msm_single_clause_counterexample`, `C03_phrase_slop3_inconsistent`);
 the proved part carries the side condition `okQ q`:
   * every boolean node with exactly one clause has `msm ≤ 1` (SHOULD) / `msm = 0` (MUST) — F4;
-  * no phrase of ≥ 3 terms with slop ≥ 1 — S6.
+  * no phrase of ≥ 3 terms with slop ≥ 1 — S6;
+  * no fuzzy leaf in prefix mode (`C03_fuzzy_prefix_counterexample`).
 -/
 theorem C03_compile_sound_partial (cls : LeafCls) (scoring b : Bool)
     (docs : List ADoc) (hcls : LeafSoundOn cls docs) (q : Query) (hok : okQ q = true) :
@@ -316,6 +317,19 @@ theorem C03_phrase_slop_partial (a b : List Nat) (slop : Nat)
       ∧ (phraseSlop [a, b] slop = true ↔ ∃ p, p ∈ a ∧ ∃ q, q ∈ b ∧ dist p q ≤ slop) :=
   have h := PhraseSlop.phrase_two_terms a b slop ha hb
   ⟨h.1, h.2.1, h.2.2.1, h.2.2.2, PhraseSlop.phraseSlop_two a b slop⟩
+
+/-! ## fuzzy prefix mode -/
+
+/-- term "bet", query "aib", distance 2: the prefix "b" is within distance 2 of the query (the
+documented meaning of prefix mode matches), but the acceptance rule of the prefix automaton
+(`is_prefix_sink`) does not freeze that match and the longer prefixes are farther: the
+implementation misses the term; the term "b" alone is matched. Hence `leafOk` excludes fuzzy
+prefix leaves from `C03_compile_sound_partial`. -/
+theorem C03_fuzzy_prefix_counterexample :
+    fuzzyMatch [97, 105, 98] 2 false true [98, 101, 116] = true
+      ∧ implFuzzyMatch [97, 105, 98] 2 false true [98, 101, 116] = false
+      ∧ implFuzzyMatch [97, 105, 98] 2 false true [98] = true := by
+  decide
 
 /-! ## order-preserving encodings (functions regenerated from common/src/lib.rs) -/
 
